@@ -862,14 +862,17 @@ static void gen_expr(Node *node) {
       // If the lhs is a bitfield, we need to read the current value
       // from memory and merge it with a new value.
       Member *mem = node->lhs->member;
-      println("  mov %%rax, %%rdi");
-      println("  and $%ld, %%rdi", (1L << mem->bit_width) - 1);
+      // The mask of a field of 32 or more bits does not fit the
+      // immediate operand of `and`, so load it into a register.
+      long field = mem->bit_width == 64 ? -1 : (1L << mem->bit_width) - 1;
+      println("  mov $%ld, %%rdi", field);
+      println("  and %%rax, %%rdi");
       println("  shl $%d, %%rdi", mem->bit_offset);
 
       println("  mov (%%rsp), %%rax");
       load(mem->ty);
 
-      long mask = ((1L << mem->bit_width) - 1) << mem->bit_offset;
+      long mask = (unsigned long)field << mem->bit_offset;
       println("  mov $%ld, %%r9", ~mask);
       println("  and %%r9, %%rax");
       println("  or %%rdi, %%rax");
